@@ -39,6 +39,7 @@ global_dict['abs'] = sym.Abs
 global_dict['rect'] = rect
 global_dict['tri'] = tri
 global_dict['trap'] = trap
+global_dict['sinc'] = sincn
 global_dict['sincn'] = sincn
 global_dict['sincu'] = sincu
 global_dict['psinc'] = psinc
